@@ -529,34 +529,32 @@ Proof. unfold limits_respected. intros H c Hc. pose proof (forallb_In _ _ H c Hc
   - intros m ->. apply Nat.leb_le; exact H2. Qed.
 
 (* ------------------------------------------------------------------ *)
-(* the enumeration of the implementation contains schemes that are not
-   well-formed, and optimize_contractions selects one of them:
-   A_ij B_ik C_ij D_j with target k *)
+(* regression examples on the inputs of the two repaired defects *)
 Definition wit_i := Idx Occ NoSpin 105 0 0.
 Definition wit_j := Idx Occ NoSpin 106 0 0.
 Definition wit_k := Idx Occ NoSpin 107 0 0.
 Definition wit_objs : list obj :=
   [(NBase 0, [wit_i; wit_j]); (NBase 1, [wit_i; wit_k]); (NBase 2, [wit_i; wit_j]); (NBase 3, [wit_j])].
 
-Lemma enumerate_schemes_wf_refuted_ :
-  exists objs tg s, forallb is_base objs = true /\ inodupb tg = true /\
-    optimize_contractions 0%N objs tg None None = OScheme s 7%N /\
-    In s (fst (enumerate_schemes tg None None 0%N objs)) /\
-    wf_scheme objs tg s = false /\
-    (* the last step does not even carry the requested target indices *)
-    (forall c, last s c = c -> c_target c <> tg).
-Proof. exists wit_objs, [wit_k].
-  eexists. split; [reflexivity|]. split; [reflexivity|]. split; [vm_compute; reflexivity|].
-  split; [|split].
-  - apply (nth_error_In _ 2). vm_compute. reflexivity.
-  - vm_compute; reflexivity.
-  - intros c Hc. rewrite <- Hc. vm_compute. discriminate. Qed.
+(* A_ij B_ik C_ij D_j -> k: _group_objects still returns the non-closed groups
+   (0,1,2) and (0,2,3); with the leak guard every enumerated scheme and the
+   selected one are well-formed *)
+Lemma regression_unclosed_group_ :
+  group_objects (map snd wit_objs) [wit_k] None = [[0; 1; 2]; [0; 1; 2; 3]; [0; 2; 3]; [1; 3]] /\
+  forallb (wf_scheme wit_objs [wit_k]) (fst (enumerate_schemes [wit_k] None None 0%N wit_objs)) = true /\
+  length (fst (enumerate_schemes [wit_k] None None 0%N wit_objs)) = 2 /\
+  exists s cnt, optimize_contractions 0%N wit_objs [wit_k] None None = OScheme s cnt /\
+                wf_scheme wit_objs [wit_k] s = true.
+Proof. split; [vm_compute; reflexivity|]. split; [vm_compute; reflexivity|]. split; [vm_compute; reflexivity|].
+  eexists. eexists. split; vm_compute; reflexivity. Qed.
 
-(* terms with a single tensor: the special case of optimize_contractions passes
-   the flat index tuple to Contraction and crashes (model: OTypeError) *)
-Lemma single_object_refuted_ cnt n x ix tg mid mg :
-  optimize_contractions cnt [(n, x :: ix)] tg mid mg = OTypeError.
-Proof. reflexivity. Qed.
+(* a term with a single tensor A_ij, requested as (j, i) *)
+Lemma regression_single_object_ :
+  exists s cnt, optimize_contractions 0%N [(NBase 0, [wit_i; wit_j])] [wit_j; wit_i] None None = OScheme s cnt /\
+    wf_scheme [(NBase 0, [wit_i; wit_j])] [wit_j; wit_i] s = true /\
+    forall d, c_target (last s d) = [wit_j; wit_i].
+Proof. eexists. eexists. split; [vm_compute; reflexivity|]. split; [vm_compute; reflexivity|].
+  intros d. reflexivity. Qed.
 
 (* the scheme ends in a contraction carrying the requested targets in order *)
 Lemma wf_steps_last tg s : forall pool, wf_steps tg pool s = true ->
